@@ -66,7 +66,7 @@ func writeTempResolvConf(tmpPath, dns string) error {
 		line := strings.TrimSpace(s.Text())
 		if line == "" ||
 			strings.HasPrefix(line, "#") ||
-			strings.HasPrefix(line, "nameserver ") {
+			strings.Fields(line)[0] == "nameserver" {
 			continue
 		}
 		fmt.Fprintln(tmp, line)
